@@ -118,11 +118,23 @@ def design_memory(spec):
             doms[d] = ClockDomain(d, clk_edge=(cfg.get("edge") or {}).get(d, "pos"), async_reset=(cfg.get("reset") or {}).get(d) == "async")
             m.domains += doms[d]
     shape = Shape(*cfg["shape"])
+    ins, outs = [], []
+    aux_dom = next((p["domain"] for p in cfg["wports"] if p["domain"] != "comb"), None)
+    if cfg.get("aux") and aux_dom is not None:
+        # a second memory in the SAME module, declared first, with a write port and a read port transparent for it
+        aux = Memory(shape=3, depth=cfg["depth"] + 1, init=[5, 2])
+        m.submodules.aux = aux
+        awp = aux.write_port(domain=aux_dom)
+        arp = aux.read_port(domain=aux_dom, transparent_for=(awp,))
+        for nm, sg in (("aux_w_addr", awp.addr), ("aux_w_data", awp.data), ("aux_w_en", awp.en), ("aux_r_addr", arp.addr), ("aux_r_en", arp.en)):
+            sg.name = nm
+            ins.append(sg)
+        arp.data.name = "aux_r_data"
+        outs.append(arp.data)
     mem = Memory(shape=shape, depth=cfg["depth"], init=cfg["init"])
     m.submodules.mem = mem
     wps = [mem.write_port(domain=p["domain"], granularity=p["gran"]) for p in cfg["wports"]]
     rps = [mem.read_port(domain=p["domain"], transparent_for=tuple(wps[i] for i in p["transparent"])) for p in cfg["rports"]]
-    ins, outs = [], []
     for d in doms.values():
         ins += [d.clk, d.rst]
     for i, wp in enumerate(wps):
@@ -138,7 +150,7 @@ def design_memory(spec):
             ins.append(rp.en)
         rp.data.name = f"r{i}_data"
         outs.append(rp.data)
-    return m, ins, outs, c11.show(cfg) + "  (domains with reset)"
+    return m, ins, outs, c11.show(cfg) + "  (domains with reset)" + ("; a second memory (3 bits wide, one row more) with a write port and a transparent read port in the same module" if cfg.get("aux") and aux_dom is not None else "")
 
 
 def design_multi(spec):
@@ -942,6 +954,8 @@ def families(tier, seed):
     for cfg in c11.configs(tier, seed)[: (60 if tier == "quick" else 1500)]:
         if cfg.get("array") is None:
             jobs.append({"family": "memory", "cfg": cfg})
+            if len(jobs) % 4 == 0:
+                jobs.append({"family": "memory", "cfg": dict(cfg, aux=True)})
     # multi-domain tops with wrappers inside
     from checks import c03
     for k in range(12 if tier == "quick" else 150):
